@@ -365,12 +365,41 @@ Fixpoint field_of (k : str) (fs : list (str * shape)) : option shape :=
 Definition iface_shape (m : list item) (n : str) : option shape :=
   option_map (fun ms => ShObj (map tmember ms)) (interface_members m n).
 
-(* one item: per-key comparison of the Zod-mode description against the plain declaration *)
-Definition compare_item (zm : list item) (n : str) (param : bool) (z t : shape) : list tag :=
+(* declarations by occurrence: several commands may derive the same type name (get_user2 / get_user_2,
+   the same function name in two files); both generators then print one declaration per command, in
+   the same command order, and the k-th declaration of a name in one mode is judged against the k-th
+   in the other (the duplicate declaration itself is C01/C02's business) *)
+Fixpoint find_nth (p : item -> bool) (k : nat) (m : list item) : option item :=
+  match m with
+  | [] => None
+  | it :: r => if p it then match k with 0 => Some it | S k' => find_nth p k' r end else find_nth p k r
+  end.
+Definition is_type_named (n : str) (it : item) : bool :=
+  match it with IInterface x _ _ _ _ | ITypeAlias x _ _ => str_eqb x n | _ => false end.
+Definition is_const_named (n : str) (it : item) : bool :=
+  match it with IConst x _ => str_eqb x n | _ => false end.
+Definition plain_decl_k (m : list item) (n : str) (k : nat) : option shape :=
+  match find_nth (is_type_named n) k m with
+  | Some (IInterface _ _ _ ms _) => Some (ShObj (map tmember ms))
+  | Some (ITypeAlias _ _ t) => Some (tshape t)
+  | _ => None end.
+Definition zod_decl_k (m : list item) (n : str) (k : nat) : option shape :=
+  match find_nth (is_const_named (n ++ L "Schema")) k m with Some (IConst _ e) => Some (zshape e) | _ => None end.
+Definition iface_shape_k (m : list item) (n : str) (k : nat) : option shape :=
+  match find_nth (is_type_named n) k m with Some (IInterface _ _ _ ms _) => Some (ShObj (map tmember ms)) | _ => None end.
+Definition count (n : str) (l : list str) : nat := List.length (filter (str_eqb n) l).
+Fixpoint occurrences (seen l : list str) : list (str * nat) :=
+  match l with [] => [] | n :: r => (n, count n seen) :: occurrences (n :: seen) r end.
+Definition same_counts (a b : list str) : bool :=
+  forallb (fun n => Nat.eqb (count n a) (count n b)) (a ++ b).
+
+(* one item: per-key comparison of the Zod-mode description against the plain declaration;
+   [extra]: the Zod-mode interface of the same occurrence (channel members), if any *)
+Definition compare_item (extra_sh : option shape) (param : bool) (z t : shape) : list tag :=
   match z, t with
   | ShObj zf, ShObj tf =>
       (* keys of the parameter object that are channel members live in the Zod-mode interface *)
-      let extra := match iface_shape zm n with Some (ShObj ef) => ef | _ => [] end in
+      let extra := match extra_sh with Some (ShObj ef) => ef | _ => [] end in
       let zkeys := map fst zf ++ map fst extra in
       (if same_names zkeys (map fst tf) && Nat.eqb (List.length zkeys) (List.length tf) then [] else [TgKeys]) ++
       flat_map (fun f => match field_of (fst f) zf with
@@ -412,25 +441,27 @@ Definition compare_modules (pm zm : list item) : verdict :=
      channel-only parameter object has a schema *)
   let schema_tags := if subset znames ptypes then [] else [TgNames] in
   let reach := param_reachable zm in
+  let count_tags := if same_counts ptypes ztypes then [] else [TgNames] in
   let per_item :=
-      map (fun n =>
-             match plain_decl pm n with
+      map (fun nk =>
+             let n := fst nk in let k := snd nk in
+             match plain_decl_k pm n k with
              | None => (n, [TgParse])
              | Some t =>
-                 match zod_decl zm n with
-                 | Some z => (n, add_tags (compare_item zm n (mem n reach) z t) [])
+                 match zod_decl_k zm n k with
+                 | Some z => (n, add_tags (compare_item (iface_shape_k zm n k) (mem n reach) z t) [])
                  | None =>
                      (* no schema: only legal for a parameter object made of channels alone, which
                         is then an interface in Zod mode too *)
-                     match iface_shape zm n with
+                     match iface_shape_k zm n k with
                      | Some zi => (n, if negb (is_params_name n) then [TgNames]
                                           else if shape_agree zi t then []
                                           else if same_names (keys_of zi) (keys_of t) then [TgShape] else [TgKeys])
                      | None => (n, [TgNames]) end
                  end
-             end) ptypes in
-  {| v_tags := add_tags (name_tags ++ schema_tags ++ flat_map snd per_item) [];
+             end) (occurrences [] ptypes) in
+  {| v_tags := add_tags (name_tags ++ count_tags ++ schema_tags ++ flat_map snd per_item) [];
      v_detail := filter (fun p => match snd p with [] => false | _ => true end) per_item;
-     v_keys := flat_map (fun n => match plain_decl pm n, zod_decl zm n with
-                                  | Some t, Some z => key_findings n (mem n reach) z t
-                                  | _, _ => [] end) ptypes |}.
+     v_keys := flat_map (fun nk => match plain_decl_k pm (fst nk) (snd nk), zod_decl_k zm (fst nk) (snd nk) with
+                                   | Some t, Some z => key_findings (fst nk) (mem (fst nk) reach) z t
+                                   | _, _ => [] end) (occurrences [] ptypes) |}.
